@@ -77,6 +77,8 @@ type tspec struct {
 	// State: for a pod of the snapshot (seqCase.Init), what the cluster says about it when the cycle starts; one of
 	// snapStates. "" = pending.
 	State string `json:"state,omitempty"`
+	// Node: action stream only: the node a running pod of the snapshot runs on.
+	Node string `json:"node,omitempty"`
 }
 
 // snapStates are the situations a pod that belongs to a queue can be in when a snapshot is taken, named after the
@@ -98,6 +100,8 @@ type jspec struct {
 	Queue       string  `json:"queue"`
 	Preemptible bool    `json:"preemptible"`
 	Tasks       []tspec `json:"tasks"`
+	// Priority: action stream only (the job's priority; preemptible = priority < 100). 0 elsewhere (jobs are built with 50).
+	Priority int32 `json:"priority,omitempty"`
 }
 
 // ---- name -> positive -------------------------------------------------------
